@@ -20,7 +20,7 @@ def votes_proof(keyed):
     return [Inject("entry", "broadcast use group_seq_axioms;"), ]
 
 UNIT = Unit(
-    name="stakeset",
+    name="stakeset", lemma_obs=['lemma_fsum_perm'],
     prelude=["core.rs", "iter.rs", "imbl.rs"],
     lemmas=["sums.rs", "stakes.rs"],
     items=[
